@@ -593,7 +593,7 @@ def _static_params(item):
     m = re.search(r"dst=(True|False),secs=(True|False)", name)
     if m:
         out["is_dst"], out["incl_seconds"] = m.group(1) == "True", m.group(2) == "True"
-    if "range" in name or "neg" in name or "out-of-range" in name:
+    if "out-of-range" in name or re.search(r"_(range|neg)\[", name):
         out["in_range"] = False
     return out
 
